@@ -118,7 +118,7 @@ impl<const B_SIZE: usize> RSSupport for RSSupportPlain<B_SIZE> {
                 // always sample at least once
                 sample.push(0);
             }
-            sample.push(superblocks.len() as u32 - 1); // sentinel
+            sample.push((superblocks.len() - 1) as u32); // sentinel
         }
 
         Self {
